@@ -42,6 +42,7 @@ def run(tier):
     c20._b_key_params(Relabel(chk, {"C20.b": "C10.a-cache"}), [x for x in c20._sites() if x.mod.name.endswith("services.system")])
     _a_integrate_times(chk)
     _a_propagate(chk)
+    _a_propagate_options(chk)
     c03._directed_semantics(_Relabel(chk), signed_time=True)
     c03._direction_sites(_Relabel(chk))
     c03._directed_memo(_Relabel(chk))
@@ -223,6 +224,45 @@ def _a_propagate(chk):
     chk.check(st.shape == (3, 2) and all(list(st[i]) == list(tagvec("y0")) for i in range(3)), "C10.d", f"{BASE}::_propagate_dynsys[zero span]",
               "zero-length propagation does not repeat the initial state", sample="tf == t0 -> states = y0 repeated", nontrivial=False)
     chk.count("functions partially evaluated", 7)
+
+
+def _a_propagate_options(chk):
+    """Options given to _propagate_dynsys reach the integrator it builds under their own names (order for every method; rtol,
+    atol, max_step for the adaptive one), and the adaptive defaults are equal and tight."""
+    mod, fn = ri.find_def(BASE, "_propagate_dynsys")
+    RT, AT, MS, OD = sp.Symbol("RTOL"), sp.Symbol("ATOL"), sp.Symbol("MAX_STEP"), sp.Symbol("ORDER")
+    for method, ctor in (("fixed", "RungeKutta"), ("adaptive", "AdaptiveRK"), ("symplectic", "_ExtendedSymplectic")):
+        for label, extra in (("given", {"rtol": RT, "atol": AT, "max_step": MS}), ("defaults", {})):
+            got = {}
+
+            def make(name):
+                def f(ip_, a, k, name=name):
+                    got[name] = dict(k)
+                    return SymObj(None, {"integrate": lambda system, y0, t_eval, **kw: SymObj(None, {"times": t_eval, "states": sp.Symbol("STATES")}, "sol")}, name)
+                return f
+
+            ov = {n: make(n) for n in ("RungeKutta", "AdaptiveRK", "_ExtendedSymplectic")}
+            ov.update({"_DirectedSystem": lambda ip_, a, k: sp.Symbol("D"), "_Solution": lambda ip_, a, k: SymObj(None, {"times": a[0], "states": a[1]}, "sol"),
+                       "_validate_initial_state": lambda ip_, a, k: a[0]})
+            ip = Interp(overrides=ov, decide=lambda c: False)
+            ip.isinstance_hook = lambda v, c: True if (isinstance(c, ClassRef) and "Hamiltonian" in c.node.name) else None
+            kw = dict(dynsys=SymObj(None, {"dim": 2}, "d"), state0=tagvec("y0"), t0=R(0), tf=R(1), forward=1, steps=3, method=method, order=OD)
+            kw.update(extra)
+            ip.apply(FuncRef(mod, fn, qual="_propagate_dynsys"), [], kw)
+            k = got.get(ctor)
+            if k is None:
+                chk.fail("C10.d", f"{BASE}::_propagate_dynsys[{method},{label},integrator]", f"method '{method}' does not build {ctor}: built {sorted(got)}")
+                continue
+            ok = k.get("order") == OD
+            if method == "adaptive":
+                if label == "given":
+                    ok = ok and k.get("rtol") == RT and k.get("atol") == AT and k.get("max_step") == MS
+                else:
+                    ok = ok and k.get("rtol") == k.get("atol") and k.get("rtol") is not None and 0 < float(S(k["rtol"])) <= 1e-9
+            chk.check(ok, "C10.d", f"{BASE}::_propagate_dynsys[{method},{label},options]",
+                      f"{ctor} is built with {k} for order={OD}" + (f", rtol={RT}, atol={AT}, max_step={MS}" if label == "given" else " and no tolerances given")
+                      + ": an option does not reach the integrator under its own name", sample=f"{method}/{label}: {ctor}({', '.join(sorted(k))}) forwarded", nontrivial=(label == "given"))
+    chk.count("functions partially evaluated", 6)
 
 
 def _c_descending(chk):
